@@ -95,6 +95,84 @@ OP_PROGRAMS = [
 ]
 
 
+# forms in statement position (value discarded): only constants and bare names may vanish
+STMT_FORMS = ["1", ":k", "x", "\"s\"", "(.-p1 o)", "(.-p1 x)", "(.-p2 (m 1 o))", "(.-nosuch o)", "(.-nosuch x)", "(.-real 1)",
+              "(operator/getitem #py [1] 5)", "(operator/add 1 \"a\")", "(operator/contains 1 1)", "(operator/not_ x)",
+              "(if (m 1 nil) nil nil)", "(if (.-p1 o) nil nil)", "(if (.-nosuch o) nil nil)", "(if x nil nil)",
+              "(if (operator/getitem #py [] 0) nil nil)", "(.m1 o)", "(python/abs \"a\")"]
+STMT_CTX = ["(let [x o] %s (m 9))", "((fn [x] %s (m 9)) o)", "(let [x o] (do %s (m 8)) (m 9))",
+            "(let [x o] (try %s (m 8) (catch python/Exception _ (m 7)) (finally (m 9))))",
+            "(let [x o] (loop [i 0] %s (if (< i 1) (recur (inc i)) (m 9))))"]
+# def of one name in nested functions (every function needs its own `global` declaration), dead code after
+# throw / recur / return in every kind of block
+BLOCK_PROGRAMS = [
+    "((fn [] (def ga 1) ((fn [] (def ga 2))) ga))", "((fn [] (def ga 1) (def ga 2) ga))",
+    "((fn [] (def ga 1) ((fn [] ((fn [] (def ga 3))))) ga))", "(do (def ga 1) ((fn [] (def ga 2))) ga)",
+    "((fn [] (def ga 1) (def gb 2) ((fn [] (def gb 5) (def ga 6))) [ga gb]))",
+    "((fn [] (def ga 1) (let [f (fn [v] (def ga v))] (f 7) (f 8)) ga))",
+    "((fn [] ((fn [] (def ga 2))) (def ga 1) ((fn [] (def ga 4) (def ga 5))) ga))",
+    "((fn [] (m 1) (throw (python/ValueError \"v\")) (m 2)))",
+    "((fn [x] (if x (do (m 1) (throw (python/ValueError \"v\")) (m 2)) (m 3)) (m 4)) true)",
+    "(try (m 1) (throw (python/ValueError \"v\")) (m 2) (catch python/ValueError _ (m 3) (throw (python/KeyError 1)) (m 4)) (finally (m 5)))",
+    "(try (try (m 1) (finally (m 2) (throw (python/ValueError \"v\")) (m 3))) (catch python/ValueError _ (m 4)))",
+    "(try (m 1) (catch python/ValueError _ (m 2)) (finally (m 3)))", "(try (m 1) (finally nil))", "(try (m 1) (finally 1 :k))",
+    "(loop [i 0] (m i) (if (< i 2) (recur (inc i)) (do (m 7) i)))",
+    "(loop [i 0] (if (< i 2) (do (m i) (recur (inc i))) nil))",
+    "((fn [x] (if x nil (m 1)) (m 2)) nil)", "((fn [x] (if x (m 1) nil) (m 2)) nil)", "((fn [x] (if x nil nil) (m 2)) (m 1))",
+    "((fn [x] (if (m 1 x) nil (m 2)) (m 3)) true)", "((fn [x] (if (.-p1 x) nil (m 2)) (m 3)) o)",
+    "((fn [x] (when-not (.-p1 x) (m 2)) (m 3)) o)", "((fn [x] (cond (m 1 x) nil :else nil) (m 3)) 1)",
+]
+
+
+def op_family(rnd, quick):
+    """every operator the pass rewrites, over operand shapes constant / name / call / operator-expression holding a call
+    / subscript holding a call / attribute of a call; the marker calls make the order of evaluation observable"""
+    def shapes(v, zero, k):
+        out = [("lit", v), ("name", "xy"[k - 1]), ("call", "(m %d %s)" % (k, v)),
+               ("sub", "(operator/getitem (m %d #py [%s]) 0)" % (k, v))]
+        if zero is not None:
+            out.append(("bin", "(operator/add (m %d %s) %s)" % (k, v, zero)))
+        if zero == "0":
+            out.append(("attr", "(.-real (m %d %s))" % (k, v)))
+        return out
+    progs = []
+    binops = ["add", "sub", "mul", "mod", "floordiv", "truediv", "pow", "lshift", "rshift", "and_", "or_", "xor",
+              "lt", "le", "eq", "ne", "gt", "ge", "is_", "is_not"]
+    cases = [(op, "6", "0", "3", "0") for op in binops]
+    cases += [("contains", "#py [1 2]", "#py []", "2", "0"), ("contains", "#py [1 2]", "#py []", "1.0", None),
+              ("contains", "\"abc\"", "\"\"", "\"b\"", "\"\""), ("contains", "5", None, "2", "0"),
+              ("getitem", "#py [1 2]", "#py []", "1", "0"), ("getitem", "#py [1 2]", "#py []", "7", "0"),
+              ("getitem", "{:a 1}", None, ":a", None), ("truediv", "6", "0", "0", "0"), ("is_", "1.0", None, "1", "0"),
+              ("is_not", "nil", None, "nil", None), ("eq", "1.0", None, "1", "0"), ("matmul", "6", "0", "3", "0")]
+    for op, a, za, b, zb in cases:
+        for sa, ta in shapes(a, za, 1):
+            for sb, tb in shapes(b, zb, 2):
+                body = "(operator/%s %s %s)" % (op, ta, tb)
+                progs.append("(let [x %s y %s] %s)" % (a, b, body))
+    for op in ["not_", "inv", "neg"]:
+        for sa, ta in shapes("6", "0", 1):
+            progs.append("(let [x 6] (operator/%s %s))" % (op, ta))
+    for f in STMT_FORMS:
+        for c in STMT_CTX:
+            progs.append(c % f)
+    must = [q for q in progs if "contains" in q or "(m 9)" in q]
+    rest = [q for q in progs if q not in set(must)]
+    if quick:
+        rnd.shuffle(rest)
+        rest = rest[:200]
+    return BLOCK_PROGRAMS + must + rest
+
+
+def _dup_global(text):
+    import re
+    names = re.findall(r"\(def (\w+) ", text)
+    return len(names) != len(set(names))
+
+
+def _ops_job(texts):
+    return run_ops(texts)
+
+
 class _Capture:
     def __init__(self, real):
         self.real = real
@@ -178,7 +256,11 @@ def run(chk):
         for u in units[:: max(1, len(units) // 3)][:3]:
             chk.sample({"ns": u["ns"], "unit": u["n"], "python_before": u["src"][:300]})
     # ---- (b) execution with and without the pass -------------------------------------------------------
-    res = run_ops(OP_PROGRAMS)
+    fam = op_family(rnd, chk.tier == "quick")
+    chk.extra["operator_family_programs"] = len(fam)
+    with mp.get_context("fork").Pool(16) as pool:
+        parts = pool.map(_ops_job, [fam[i::16] for i in range(16)], chunksize=1)
+    res = run_ops(OP_PROGRAMS) + [r for part in parts for r in part]
     pairs, owner = [], []
     for t, a, b, ps in res:
         chk.count(2, traces=1)
@@ -193,6 +275,12 @@ def run(chk):
         devs_of.setdefault(t, set()).update(v)
     for t, a, b, ps in res:
         ds = sorted(devs_of.get(t, set()))
+        if not ds and a != b and b[0] == "exc" and b[1].get("c") == "SyntaxError" and ps and _dup_global(t):
+            # two defs of one name in one function: the generator emits `global n` twice and leaves it to this pass
+            # (DedupGlobal, an allowed rewrite) to make the module valid Python -- without the pass there is no
+            # behaviour to compare with; the (before, after) pairs of the program were still decided by TLC above
+            chk.extra["no_oracle_without_pass(duplicate global)"] = chk.extra.get("no_oracle_without_pass(duplicate global)", 0) + 1
+            continue
         if a != b or ds:
             sig = None
             if ds and "unexplained" not in ds:
@@ -226,7 +314,7 @@ def run(chk):
             chk.discrepancy("Opt!RewritePreserves(exec)", {"kind": "prog", "text": text},
                             {"with_pass_off": offr[i]}, {"with_pass_on": on[i]}, sig=sig, module="Opt",
                             direction="code->spec")
-    chk.extra["programs_executed_both_ways"] = len(texts) + len(OP_PROGRAMS)
+    chk.extra["programs_executed_both_ways"] = len(texts) + len(OP_PROGRAMS) + len(fam)
 
 
 def replay(chk, body):
